@@ -1,14 +1,235 @@
 """C04 - reports are complete, truthful, schema-valid and delivered in version order."""
+import json
+from concurrent.futures import ThreadPoolExecutor
+
 import mdibcheck
 import mdibgen
 
 FILES = ('70041_MDIB_Final.xml', 'mdib_two_mds.xml')
 
 
+# ----------------------------------------------------------------------------- oracle of stream `order`
+STATE_REPORTS = ('EpisodicMetricReport', 'EpisodicAlertReport', 'EpisodicComponentReport', 'EpisodicContextReport',
+                 'EpisodicOperationalStateReport', 'WaveformStream')
+
+
+def _key(x):
+    return json.dumps(x, sort_keys=True, default=str)
+
+
+def _wire_content(rep):
+    """content of a parsed notification in the normal form of c04_common.Recorder"""
+    if rep['kind'] == 'DescriptionModificationReport':
+        d = {'Crt': [], 'Upt': [], 'Del': [], 'states': []}
+        for p in rep['parts']:
+            mod = p['mod'] if p['mod'] in d else 'Upt'
+            if mod == 'Del':
+                d['Del'] += [x[0] for x in p['descrs']]
+            else:
+                d[mod] += p['descrs']
+                d['states'] += p['states']
+        return {k: sorted(v, key=_key) for k, v in d.items()}
+    return sorted((s for p in rep['parts'] for s in p['states']), key=_key)
+
+
+def _expected_content(kind, exp):
+    if kind == 'DescriptionModificationReport':
+        return {k: sorted(v, key=_key) for k, v in exp.items()}
+    return sorted(exp, key=_key)
+
+
+def order_findings(o):
+    """C04 evaluated directly on what every subscriber was handed: (what, signature, replay) per violated clause"""
+    out = []
+    commits = {int(v): c for v, c in o['commits'].items()}
+    sched_of = {}
+    for s in o['schedules']:
+        for v in s['versions']:
+            sched_of[v] = {k: s[k] for k in ('a', 'b', 'point', 'at', 'versions', 'by')}
+
+    def ctx_of(v):
+        c = commits.get(v)
+        return {'schedule': sched_of.get(v) or 'free-running threads', 'commit': c and {'kind': c['kind'], 'thread': c['thread'],
+                'reports': sorted(c['expect'])}}
+    for netloc, seq in o['subscribers'].items():
+        seen = {}
+        last = None
+        for i, rep in enumerate(seq):
+            kind = rep['kind']
+            if kind == 'UNPARSABLE':
+                out.append((f'order: a notification handed to {netloc} cannot be parsed / is not schema-valid: {rep.get("err")}',
+                            {'stream': 'order', 'clause': 'unparsable'}, {'report': rep}))
+                continue
+            if kind not in STATE_REPORTS and kind != 'DescriptionModificationReport':
+                continue
+            v = rep['ver']
+            if rep.get('status') != 200:
+                out.append((f'order: {kind} {v} was answered with HTTP {rep.get("status")}', {'stream': 'order', 'clause': 'http'},
+                            {'report': rep}))
+            if last is not None and v < last['ver']:
+                out.append((f'order: subscriber {netloc} was handed {kind} with MdibVersion {v} after {last["kind"]} with '
+                            f'MdibVersion {last["ver"]}', {'stream': 'order', 'clause': 'out of order', 'kind': kind},
+                            {'delivery_order': [[r['ver'], r['kind']] for r in seq[max(0, i - 3):i + 2]], **ctx_of(v)}))
+            last = rep
+            if (rep['seq'], rep['inst']) != (o['seq'], o['inst']):
+                out.append((f'order: {kind} {v} carries SequenceId / InstanceId {rep["seq"]} / {rep["inst"]}',
+                            {'stream': 'order', 'clause': 'sequence id', 'kind': kind}, {'report': rep}))
+            c = commits.get(v)
+            if c is None or kind not in c['expect']:
+                what = ('no transaction committed that version' if c is None else
+                        f'the commit of that version (a {c["kind"]} transaction of thread {c["thread"]}) changed nothing a {kind} reports '
+                        f'(it produces {sorted(c["expect"])})')
+                out.append((f'order: subscriber {netloc} was handed {kind} stating MdibVersion {v}, but {what}',
+                            {'stream': 'order', 'clause': 'version without such a change', 'kind': kind},
+                            {'report': rep, **ctx_of(v)}))
+                continue
+            seen[(v, kind)] = seen.get((v, kind), 0) + 1
+            got, want = _wire_content(rep), _expected_content(kind, c['expect'][kind])
+            if got != want:
+                out.append((f'order: {kind} stating MdibVersion {v} does not show what the commit of version {v} changed: '
+                            f'report {got}, committed {want}', {'stream': 'order', 'clause': 'content', 'kind': kind},
+                            {'report': rep, 'committed': want, **ctx_of(v)}))
+        for v, c in commits.items():
+            for kind in c['expect']:
+                n = seen.get((v, kind), 0)
+                if n != 1:
+                    out.append((f'order: subscriber {netloc} was handed {n} {kind} for MdibVersion {v} (a {c["kind"]} transaction '
+                                f'committed it; exactly one is due)', {'stream': 'order', 'clause': 'lost or duplicated', 'kind': kind},
+                                {'version': v, 'handed': n, **ctx_of(v)}))
+    return out
+
+
+# ----------------------------------------------------------------------------- oracle of stream `periodic`
+EPISODIC_OF = {'metric': 'EpisodicMetricReport', 'alert': 'EpisodicAlertReport', 'component': 'EpisodicComponentReport',
+               'operational': 'EpisodicOperationalStateReport', 'context': 'EpisodicContextReport'}
+
+
+def _skey(kind, st):
+    """(key in the per-version record, descriptor handle) of a canonical state"""
+    return ('c:' + str(st[0]), st[1]) if kind == 'context' else (st[0], st[0])
+
+
+def periodic_findings(r):
+    """C04 (periodic clause) evaluated on every PeriodicStates list the real PeriodicReportsHandler handed to a service
+    and on every periodic report on the wire: the states carried are exactly the values the MDIB had at the MdibVersion
+    they are labelled with"""
+    out = []
+    mode = r['mode']
+    sig = {'stream': 'periodic', 'mode': mode}
+    if r['died'] or not r['completed'] or not r['thread_alive']:
+        out.append((f'periodic ({mode}): the periodic reports thread stopped working: {r["died"] or "did not reach its next sleep"}',
+                    {**sig, 'clause': 'thread stopped'}, {'died': r['died'], 'yields': r['yields'][-6:]}))
+    hist = {int(v): t for v, t in r['hist'].items()}
+    commits = {int(v): c for v, c in r['commits'].items()}
+    for ev in r['events']:
+        kind = ev['kind']
+        where = {'round': ev['round'], 'injected_commits_in_this_round': [y for y in r['yields'] if y[0] == ev['round']]}
+        for lst in ev['lists']:
+            label, got = lst['label'], sorted(lst['states'], key=_key)
+            if mode == 'retrievability':
+                if not got:
+                    continue
+                period = r['period_of'].get(_skey(kind, got[0])[1])
+                handles = r['groups'].get(str(period), {}).get(kind, [])
+                at = hist.get(label, {})
+                want = sorted((st for st in at.values() if (len(st) > 5) == (kind == 'context') and _skey(kind, st)[1] in handles),
+                              key=_key)
+                why = 'the MDIB had at that version'
+            else:
+                c = commits.get(label)
+                want = sorted((c or {}).get('expect', {}).get(EPISODIC_OF[kind], []), key=_key)
+                at = {_skey(kind, st)[0]: st for st in want}
+                why = 'the commit of that version changed'
+            if got != want:
+                diffs = []
+                for st in got:
+                    if st not in want:
+                        diffs.append(f'{_skey(kind, st)[0]}: copy {st}, at MdibVersion {label}: {at.get(_skey(kind, st)[0])}')
+                for st in want:
+                    if _skey(kind, st)[0] not in {_skey(kind, g)[0] for g in got}:
+                        diffs.append(f'{_skey(kind, st)[0]}: missing, at MdibVersion {label}: {st}')
+                shows = lst.get('copies_show_versions')
+                out.append((f'periodic ({mode}): PeriodicStates for a Periodic{kind.capitalize()} report labelled MdibVersion {label} '
+                            f'does not carry what {why}' + (f' (the copies show the MDIB of version {shows[0]}..{shows[1]})' if shows else '')
+                            + ': ' + '; '.join(diffs[:3]), {**sig, 'clause': 'label', 'kind': kind},
+                            {'label': label, 'handed': got, 'at_label': want, 'copies_show_versions': shows,
+                             'version_when_sent': ev['version_at_send'], **where}))
+        labels = [lst['label'] for lst in ev['lists']]
+        handed = sorted((st for lst in ev['lists'] for st in lst['states']), key=_key)
+        mds_of = {_key(st): m for lst in ev['lists'] for st, m in zip(lst['states'], lst['mds'])}
+        for netloc, reps in ev['wire'].items():
+            bad = [x for x in reps if x['kind'] == 'UNPARSABLE']
+            if bad:
+                out.append((f'periodic ({mode}): a {ev["report"]} on the wire cannot be parsed / is not schema-valid: {bad[0].get("err")}',
+                            {**sig, 'clause': 'unparsable', 'kind': kind}, {'report': bad[0], **where}))
+            reps = [x for x in reps if x['kind'] == ev['report']]
+            if len(reps) != 1:
+                out.append((f'periodic ({mode}): subscriber {netloc} was handed {len(reps)} {ev["report"]} for one hand-over',
+                            {**sig, 'clause': 'wire count', 'kind': kind}, {'event': {k: ev[k] for k in ('kind', 'round', 'lists')}, **where}))
+                continue
+            rep = reps[0]
+            wire = sorted((st for p in rep['parts'] for st in p['states']), key=_key)
+            if wire != handed:
+                out.append((f'periodic ({mode}): the {ev["report"]} on the wire does not carry the states handed over: {wire} vs {handed}',
+                            {**sig, 'clause': 'wire content', 'kind': kind}, {'report': rep, 'handed': handed, **where}))
+            wrong_mds = [(p['mds'], st) for p in rep['parts'] for st in p['states'] if mds_of.get(_key(st), p['mds']) != p['mds']]
+            if wrong_mds:
+                out.append((f'periodic ({mode}): {ev["report"]} lists a state under SourceMds {wrong_mds[0][0]}: {wrong_mds[0][1]}',
+                            {**sig, 'clause': 'wire mds', 'kind': kind}, {'report': rep, **where}))
+            if (rep['seq'], rep['inst']) != (r['seq'], r['inst']) or rep.get('status') != 200:
+                out.append((f'periodic ({mode}): {ev["report"]} carries SequenceId / InstanceId {rep["seq"]} / {rep["inst"]}, '
+                            f'HTTP status {rep.get("status")}', {**sig, 'clause': 'wire ids', 'kind': kind}, {'report': rep}))
+            v = rep['ver']
+            if kind == 'context':
+                ok = bool(labels) and v == labels[-1]
+                rule = f'the label {labels[-1] if labels else None} of the states it carries'
+            else:
+                ok = v == ev['arg_version'] and (not labels or max(labels) <= v) and v <= ev['version_at_send']
+                rule = (f'the version group handed to the service ({ev["arg_version"]}), not older than the labels {labels[-3:]} and not '
+                        f'newer than the MDIB ({ev["version_at_send"]})')
+            if not ok:
+                out.append((f'periodic ({mode}): {ev["report"]} on the wire states MdibVersion {v}; it must be {rule}',
+                            {**sig, 'clause': 'wire version', 'kind': kind}, {'report': rep, 'labels': labels, **where}))
+    if mode == 'fixed':
+        # the periodic store: every commit's changed states appear exactly once, in commit order, with their version
+        for kind, ep in EPISODIC_OF.items():
+            got = [lst['label'] for ev in r['events'] if ev['kind'] == kind for lst in ev['lists']] + \
+                  [lst['label'] for lst in r['leftover'].get(kind, [])]
+            want = [v for v in r['commit_order'] if ep in commits.get(v, {}).get('expect', {})]
+            if got != want:
+                lost = [v for v in want if v not in got]
+                out.append((f'periodic (fixed): the store for Periodic{kind.capitalize()} reports handed over the versions {got[:12]}..., '
+                            f'committed were {want[:12]}... (lost {lost[:6]}, extra {[v for v in got if v not in want][:6]})',
+                            {**sig, 'clause': 'store lost or duplicated', 'kind': kind}, {'handed': got, 'committed': want}))
+            for lst in r['leftover'].get(kind, []):
+                want_st = sorted(commits.get(lst['label'], {}).get('expect', {}).get(ep, []), key=_key)
+                if sorted(lst['states'], key=_key) != want_st:
+                    out.append((f'periodic (fixed): the copies retained for MdibVersion {lst["label"]} ({kind}) show {lst["states"]}, '
+                                f'the commit of that version changed {want_st}', {**sig, 'clause': 'label', 'kind': kind},
+                                {'label': lst['label'], 'retained': lst['states'], 'committed': want_st}))
+    return out
+
+
 def run(ctx):
+    inv = mdibcheck.inventory(ctx, FILES[0])
+    # the implementation-side runs of the schedule streams are independent processes: start them now, judge them below
+    retained_handles = ctx.rng.sample(inv['metric'] + inv['alert'] + inv['comp'], ctx.n(4, 20))
+    jobs = {
+        'order': ('c04_order_impl', {'inv': inv, 'threads': ctx.n(4, 8), 'tx': ctx.n(14, 56), 'seed': ctx.seed}),
+        'periodic-r': ('c04_periodic_impl', {'inv': inv, 'seed': ctx.seed, 'modes': ['retrievability'], 'full_rounds': ctx.n(3, 6),
+                                             'rounds': {'retrievability': ctx.n(9, 30)}}),
+        'periodic-f': ('c04_periodic_impl', {'inv': inv, 'seed': ctx.seed + 7, 'modes': ['fixed'], 'full_rounds': ctx.n(2, 4),
+                                             'rounds': {'fixed': ctx.n(5, 16)}}),
+        'slow': ('c04_async_impl', {'handle': inv['metric'][0], 'delay': 4.0 if not ctx.thorough else 9.0}),
+        'retained': ('c03_alias_impl', {'handles': retained_handles, 'max_paths': ctx.n(4, 20), 'seed': ctx.seed}),
+    }
+    pool = ThreadPoolExecutor(max_workers=len(jobs))
+    fut = {k: pool.submit(ctx.impl, script, payload, 900) for k, (script, payload) in jobs.items()}
     ctx.regenerate('gen_conc_programs')
     if not ctx.prove():
-        ctx.broken('theorem', 'Props/C04.v', ctx.proof_error)
+        ctx.broken('theorem', 'Props/C04.v (C04_commit_program_safe / C04_all_commit_programs_safe: a traced commit no longer puts its '
+                              'notifications on the wire inside the locks; C04_periodic_collector_safe: the periodic collector no '
+                              'longer reads its label and copies the states inside one critical section)', ctx.proof_error)
     # ---- stream `reports`: wire reports vs the committed changes (single- and two-MDS MDIBs)
     pairs = mdibcheck.run_histories(ctx, 'reports', ctx.n(48, 800), ctx.n(10, 40), consumer=True, mdib_files=FILES,
                                     weights={'state': 5, 'ctx': 3, 'location': 1, 'descr': 4, 'reject': 1, 'abort': 1})
@@ -22,35 +243,67 @@ def run(ctx):
     if pairs:
         c, r = pairs[0]
         ctx.sample({'stream': 'reports', 'op': c['ops'][0], 'reports': r['trace'][0]['reports'][:2]})
-    # ---- stream `order`: real concurrent writer threads, two subscribers
-    inv = mdibcheck.inventory(ctx, FILES[0])
-    o = ctx.impl('c04_order_impl', {'handles': ctx.rng.sample(inv['metric'], 4), 'comp': inv['comp'][:4],
-                                    'threads': ctx.n(4, 8), 'tx': ctx.n(9, 40)}, timeout=600)
+    # ---- stream `order`: writer threads of every transaction kind, deterministic schedules + free-running, two subscribers
+    o = fut['order'].result()
     if o.get('_crash'):
         ctx.broken('correspondence', 'order: implementation run crashed', o['stderr'][-800:])
     else:
-        for e in o['errors'][:1]:
+        harness = [e for e in o['errors'] if e.startswith(('schedule stuck', 'recorder'))]
+        if harness:
+            ctx.broken('correspondence', 'order: schedule injection / commit recorder failed', harness[:3])
+        for e in [e for e in o['errors'] if e not in harness][:1]:
             ctx.fail('order: a writer thread failed: ' + e, {'stream': 'order', 'clause': 'writer error'}, {'stream': 'order', 'errors': o['errors']})
-        total = 0
-        for netloc, seq in o['subscribers'].items():
-            vs = [x[0] for x in seq]
-            total += len(vs)
-            bad = next((i for i in range(1, len(vs)) if vs[i] < vs[i - 1]), None)
-            if bad is not None:
-                ctx.fail(f'order: subscriber {netloc} was handed MdibVersion {vs[bad]} after {vs[bad - 1]}',
-                         {'stream': 'order', 'clause': 'out of order'},
-                         {'stream': 'order', 'case': {'delivery_order': seq[max(0, bad - 3):bad + 2]}})
-            if vs and sorted(set(vs)) != list(range(min(vs), max(vs) + 1)):
-                ctx.fail(f'order: subscriber {netloc} did not get a report for every committed version',
-                         {'stream': 'order', 'clause': 'gap'}, {'stream': 'order', 'case': {'versions': sorted(set(vs))}})
-            if any(x[2] != 200 for x in seq):
-                ctx.fail('order: a notification was answered with an HTTP error', {'stream': 'order', 'clause': 'http'},
-                         {'stream': 'order', 'case': [x for x in seq if x[2] != 200][:3]})
-        ctx.count('order', total, [(n, tuple(map(tuple, s))) for n, s in o['subscribers'].items()],
-                  final_version=o['final_version'], subscribers=len(o['subscribers']))
-        ctx.sample({'stream': 'order', 'first_deliveries': next(iter(o['subscribers'].values()))[:8]})
+        for what, sig, rep in order_findings(o):
+            ctx.fail(what, sig, {'stream': 'order', 'case': rep})
+        commits = o['commits']
+        hist = {}
+        for c in commits.values():
+            for k in c['expect']:
+                hist[k] = hist.get(k, 0) + 1
+        at = {}
+        for s_ in o['schedules']:
+            at[s_['at']] = at.get(s_['at'], 0) + 1
+        total = sum(len(seq) for seq in o['subscribers'].values())
+        ctx.count('order', total, [(s_['a'], s_['b'], s_['at']) for s_ in o['schedules']] +
+                  [(n, tuple((r['ver'], r['kind']) for r in seq)) for n, seq in o['subscribers'].items()],
+                  final_version=o['final_version'], subscribers=len(o['subscribers']), commits=len(commits),
+                  deterministic_schedules=len(o['schedules']), second_writer_started_at=at,
+                  commits_by_transaction_kind=_hist(c['kind'] for c in commits.values()), reports_due_by_kind=hist,
+                  free_running_commits=len(commits) - o['scheduled_commits'])
+        if o['schedules']:
+            ctx.sample({'stream': 'order', 'schedule': o['schedules'][len(o['schedules']) // 2],
+                        'first_deliveries': [[r['ver'], r['kind']] for r in next(iter(o['subscribers'].values()))[:8]]})
+    # ---- stream `periodic`: the real PeriodicReportsHandler on the virtual clock, commits injected wherever its thread does
+    #      not hold the MDIB lock
+    for key in ('periodic-r', 'periodic-f'):
+        pr = fut[key].result()
+        if pr.get('_crash'):
+            ctx.broken('correspondence', f'{key}: implementation run crashed', pr['stderr'][-800:])
+            continue
+        for r in pr['runs']:
+            if r.get('harness_error') or r.get('errors'):
+                ctx.broken('correspondence', f'periodic ({r["mode"]}): harness', r.get('harness_error') or r['errors'][:3])
+                if r.get('harness_error'):
+                    continue
+            for what, sig, rep in periodic_findings(r):
+                ctx.fail(what, sig, {'stream': 'periodic', 'mode': r['mode'], 'seed': r['seed'], 'case': rep})
+            evs = r['events']
+            ctx.count('periodic-' + r['mode'], len(evs) + len(r['yields']),
+                      [(e['kind'], tuple(l['label'] for l in e['lists']), e['round']) for e in evs] +
+                      [(y[0], y[1], tuple(y[2])) for y in r['yields']],
+                      hand_overs_by_kind=_hist(e['kind'] for e in evs), injection_points=_hist(y[1] for y in r['yields']),
+                      injected_commits=len(r['commits']), injected_commits_by_kind=_hist(c['kind'] for c in r['commits'].values()),
+                      periodic_states_judged=sum(len(e['lists']) for e in evs),
+                      wire_reports_judged=sum(len(v) for e in evs for v in e['wire'].values()),
+                      labels_older_than_mdib_when_sent=sum(1 for e in evs for l in e['lists'] if l['label'] < e['version_at_send']),
+                      virtual_seconds=r['virtual_seconds'])
+            if evs:
+                e = evs[len(evs) // 2]
+                ctx.sample({'stream': 'periodic', 'mode': r['mode'], 'kind': e['kind'], 'labels': [l['label'] for l in e['lists']][:6],
+                            'version_at_send': e['version_at_send'],
+                            'wire_versions': [x['ver'] for v in e['wire'].values() for x in v]})
     # ---- stream `slow-subscriber`: async subscriptions manager, one subscriber's round trip takes seconds (real time)
-    sl = ctx.impl('c04_async_impl', {'handle': inv['metric'][0], 'delay': 4.0 if not ctx.thorough else 9.0}, timeout=300)
+    sl = fut['slow'].result()
     if sl.get('_crash'):
         ctx.broken('correspondence', 'slow-subscriber: implementation run crashed', sl['stderr'][-800:])
     else:
@@ -68,8 +321,8 @@ def run(ctx):
                   [(n, tuple(v)) for n, v in sl['arrival_order'].items()], delay_s=sl['delay'],
                   commit_blocked_s=sl['commit_blocked_s'])
     # ---- stream `retained`: copies published by an earlier commit keep their values (shared with C03's alias stream)
-    hs = ctx.rng.sample(inv['metric'] + inv['alert'] + inv['comp'], ctx.n(4, 20))
-    a = ctx.impl('c03_alias_impl', {'handles': hs, 'max_paths': ctx.n(4, 20), 'seed': ctx.seed}, timeout=600)
+    a = fut['retained'].result()
+    pool.shutdown()
     if a.get('_crash'):
         ctx.broken('correspondence', 'retained: implementation run crashed', a['stderr'][-800:])
     else:
@@ -90,16 +343,49 @@ def run(ctx):
              'in every order, MDSs created at run time, context descriptors with several states updated); every notification '
              'on the wire is parsed by the real reader (schema validation on) and compared with the committed changes: '
              'version group, exactly the changed states / descriptors, each once, committed values, grouped under their MDS, '
-             'every description report part with every changed state of its descriptor; order: real writer threads commit '
-             'concurrently, two subscribers, delivery order per subscriber must be non-decreasing and complete; slow-subscriber: '
+             'every description report part with every changed state of its descriptor; order: writer threads commit '
+             'transactions of EVERY kind (metric, alert, component, operational, context, rt_sample, descriptor update / '
+             'create / delete); what each commit changed is recorded inside the commit per MdibVersion; deterministic '
+             'schedules: for every pair of kinds (A, B) and every point at which A takes a free MDIB lock or has just released '
+             'one, B is started exactly there through lock proxies (a B that must wait runs when A releases the lock, A waits '
+             'for it), then free-running threads; judged per subscriber in ARRIVAL order: non-decreasing MdibVersion, every '
+             'report shows exactly what the commit of the version it states changed, no report for a version in which nothing '
+             'of that kind changed, every due report exactly once, SequenceId / InstanceId, HTTP 200; periodic: the real '
+             'PeriodicReportsHandler started by SdcProvider.start_all on a virtual clock, (a) descriptors of every kind with '
+             'Retrievability=Periodic (two periods) and (b) fixed interval; at every point at which the periodic thread does '
+             'not hold the MDIB lock (before taking it, after releasing it, around the lock of the periodic store, at every '
+             'hand-over to a send_periodic_* function, at every sleep) a writer thread commits transactions that change the very '
+             'states reported; every PeriodicStates handed over must carry exactly the values the MDIB had at the MdibVersion it '
+             'is labelled with ((a): all periodic states of that kind and period, (b): the states the commit of that version '
+             'changed, every commit once, in order), the report on the wire carries exactly these states under their MDS, '
+             'PeriodicContextReport states the label as MdibVersion, the other periodic reports the version group handed to the '
+             'service (not older than the labels, not newer than the MDIB); slow-subscriber: '
              'the ASYNC subscriptions manager with a fake aiohttp client whose first round trip to one subscriber takes 4 s '
              '(thorough 9 s) of real time while further transactions commit: arrival order per subscriber; retained: '
              'copies published by a commit keep their values under later nested writes; distinct = distinct traces / '
-             'delivery sequences / (handle, path) pairs',
-        assumptions=['the order theorem is over the traced lock-step programs; the real-thread stream samples schedules only',
-                     'XSD validity is judged by lxml with the bundled schemas (oracle, not a theorem)'],
-        trusted_base=['translator harness/impl/gen_conc_programs.py (traced commit program)', 'harness/mdibrun.py report parsing',
-                      'loop-back transport'],
+             'schedules and delivery sequences / hand-overs and injections / (handle, path) pairs',
+        assumptions=['the order and label theorems are over the traced lock-step programs (commit of every transaction kind, Get '
+                     'handlers, periodic collector per period); the schedule streams enumerate the second writer at every lock '
+                     'event of the first for two writers, more writers are sampled by real threads only',
+                     'XSD validity is judged by lxml with the bundled schemas (oracle, not a theorem)',
+                     'the MdibVersion attribute of PeriodicMetric/Alert/Component/OperationalState reports is the version group '
+                     'read when the report is sent (outside the MDIB lock, by design of the library: a periodic report may '
+                     'aggregate several versions); the clause "values of the version they are labelled with" is judged on the '
+                     'PeriodicStates label, which PeriodicContextReport also puts on the wire'],
+        trusted_base=['translator harness/impl/gen_conc_programs.py + tracers c07_impl.py / c04_trace_impl.py (the traced programs '
+                      'ARE the model input; the label read of the periodic collector is identified by data flow through a tagged int)',
+                      'harness/mdibrun.py report parsing', 'loop-back transport',
+                      'harness/impl/c04_common.py lock proxies (schedule injection) and in-commit recorder'],
         not_modelled=['the asynchronous subscription manager (asyncio) is exercised by the slow-subscriber stream only (oracle, no model; a give-up '
                       'timeout longer than the injected delay would not be seen)',
-                      'report content theorem is for state transactions; context / descriptor reports by oracle + correspondence'])
+                      'report content theorem is for state transactions; context / descriptor reports by oracle + correspondence',
+                      'the fixed-interval periodic loop does not read the MDIB (its labels are written by the commit, inside the locks): '
+                      'oracle only', 'removal of a descriptor that has Retrievability=Periodic while the handler runs (the retrievability '
+                      'lists are only rebuilt on request)'])
+
+
+def _hist(it):
+    h = {}
+    for x in it:
+        h[x] = h.get(x, 0) + 1
+    return dict(sorted(h.items(), key=lambda kv: str(kv[0])))
